@@ -69,7 +69,8 @@ def html_doc(rng, links):
     attrs = ['href', 'src', 'data', 'action', 'background', 'style', 'srcset', 'content']
     parts = ['<html><head>']
     if rng.random() < 0.3:
-        parts.append('<meta http-equiv="refresh" content="%s">' % rng.choice(['0; url=/r', '5;url=', 'x', '1; URL=http://[', '\x00']))
+        parts.append('<meta http-equiv="refresh" content="%s">' % rng.choice(['0; url=/r', '5;url=', 'x', '1; URL=http://[', '\x00', "0; url='/target", "0;url='", '0; url=&quot;/t', '0; url=&quot;',
+                                                                                '0; url=&quot;/a b/&quot;; x=1', "0; URL= '/s' "]))
     if rng.random() < 0.3:
         parts.append('<base href="%s">' % rng.choice(['/', 'http://[::1', 'http://a.test/b/', '\udcff', 'javascript:1', '']))
     if rng.random() < 0.3:
@@ -176,6 +177,9 @@ def http_response(rng, body=None, ctype=None, location=None):
     if body is None:
         body = rbytes(rng, rng.choice([0, 1, 10, 100]))
     status = rng.choice([200, 200, 200, 200, 404, 500, 301, 302, 307, 401, 204, 304, 100, 206, 999, 0])
+    if rng.random() < 0.04:
+        # a code of any length is a number to whatever reads it with \d+ (the table column holds 64 bits)
+        status = rng.choice(['9223372036854775808', '9223372036854775807', '99999999999999999999', '200000000000000000000000000000000000', '1000', '0200', '00000000000000000000200', '2147483648', '4294967296', '٢٠٠'])
     reason = rng.choice(['OK', '', 'Not Found', '\xe9\xe8', 'x' * 100])
     nl = rng.choice(['\r\n', '\r\n', '\r\n', '\n'])
     hdrs = []
@@ -225,7 +229,8 @@ def http_response(rng, body=None, ctype=None, location=None):
         close = True
     for _ in range(rng.randint(0, 3)):
         hdrs.append(rng.choice([('Set-Cookie', rng.choice(['a=b', 'a=b; Domain=.test; Path=/; Expires=garbage', '=', '\xff=\xfe', 'a=' + 'b' * 5000, 'a=b; Max-Age=x'])),
-                                ('Refresh', rng.choice(['0; url=/refresh', 'x', '5', '0;url=http://[', '0;url=' + NFKC_REFS[1]])),
+                                ('Refresh', rng.choice(['0; url=/refresh', 'x', '5', '0;url=http://[', '0;url=' + NFKC_REFS[1], '0; url="/target', "0;url='/x", '0; url="', "3; URL='",
+                                                        '0; url="/a b/"; x=1', '0; url=', ';', '0; url = "/q" ', '-1; url=/neg', '1e9;url=/big', '0;url="\'/m\'"'])),
                                 ('Connection', rng.choice(['close', 'keep-alive', 'x'])), ('X-Fold', 'a\r\n b'), ('Link', '</l>; rel=x'),
                                 ('Last-Modified', rng.choice(['garbage', 'Mon, 01 Jan 2001 00:00:00 GMT', '99999999999',
                                                               # dates that PARSE, with a field no calendar holds
